@@ -282,6 +282,24 @@ impl Prop for C08 {
                             o.fail("wrong", "C08/arg-mismatch", ctx(&format!("call {id} (production {}): argument {i} is {arg:?} for symbol {sym:?}", r.pidx)));
                             return o;
                         }
+                        // without an error nothing was inserted: every lexeme handed to an action
+                        // is one of the input's, as it came from the lexer (also one of length zero)
+                        if errs.is_empty() {
+                            if let Arg::Lexeme { start, len, faulty, .. } = arg {
+                                let input_lexeme = layout.spans().contains(&(*start, *len));
+                                if *faulty || !input_lexeme {
+                                    o.fail(
+                                        "wrong",
+                                        "C08/arg-not-an-input-lexeme",
+                                        ctx(&format!("call {id} (production {}): argument {i} is {arg:?} although the parse reported no error (input spans {:?})", r.pidx, layout.spans())),
+                                    );
+                                    return o;
+                                }
+                                if *len == 0 {
+                                    o.class("zero-length-input-lexeme");
+                                }
+                            }
+                        }
                     }
                     // (3) span
                     let mut lv = vec![];
